@@ -237,6 +237,15 @@ func suiteC19(c *ctx) {
 		}
 		cs.Datas[0] = DataSpec{Gen: k, Seed: r.U64(), N: n}
 		cs.Ops = append(partition(r, n, 0, s, i%3 == 0), Op{K: "c"})
+		if i%6 == 1 {
+			// a reused writer: a first stream (closed, or abandoned), Reset, then the stream that is checked
+			pre := []Op{{K: "w", N: r.Pick([]int{0, 100, 9000, 70000}), Src: 1}}
+			if r.Bool() {
+				pre = append(pre, Op{K: "c"})
+			}
+			cs.Datas = append(cs.Datas, DataSpec{Gen: "text", Seed: r.U64(), N: 70000})
+			cs.Ops = append(append(pre, Op{K: "r"}), cs.Ops...)
+		}
 		cases = append(cases, cs)
 	}
 	parallelJ(len(cases), func(i int) interface{} { return cases[i] }, func(i int) { checkHistory(c.rep, c.pool, cases[i]) })
@@ -334,7 +343,17 @@ func suiteC20(c *ctx) {
 		} else {
 			d = DataSpec{Gen: r.PickS([]string{"rnd", "uni8", "uni6", "uni4", "fib", "uni1", "two", "one", "text", "run"}), Seed: r.U64(), N: pickSize(r, s, true)}
 		}
-		cases = append(cases, &WCase{Prop: "C20", ID: fmt.Sprintf("C20-%d", i), Set: s, Datas: []DataSpec{d}, Ops: []Op{{K: "w", N: d.N}, {K: "c"}}})
+		wc := &WCase{Prop: "C20", ID: fmt.Sprintf("C20-%d", i), Set: s, Datas: []DataSpec{d}, Ops: []Op{{K: "w", N: d.N}, {K: "c"}}}
+		if i%7 == 3 {
+			// the same on a reused writer: an abandoned (unflushed, unclosed) or closed first stream, Reset
+			wc.Datas = append(wc.Datas, DataSpec{Gen: r.PickS([]string{"text", "rnd", "uni3"}), Seed: r.U64(), N: 140000})
+			pre := []Op{{K: "w", N: r.Pick([]int{500, 8450, 9000, 65794, 70000, 140000}), Src: 1}}
+			if r.Intn(3) == 0 {
+				pre = append(pre, Op{K: "c"})
+			}
+			wc.Ops = append(append(pre, Op{K: "r"}), wc.Ops...)
+		}
+		cases = append(cases, wc)
 		per = append(per, p)
 	}
 	parallelJ(len(cases), func(i int) interface{} { return cases[i] }, func(i int) { checkC20(c.rep, cases[i], per[i]) })
